@@ -218,7 +218,12 @@ func handle(h *NtfnsHandler) {
 
 		case <-h.sigSuspend:
 			verifPoint("handle.suspended")
-			<-h.sigResume
+			select {
+			case <-h.sigResume:
+			case <-h.quit:
+				logging.CPrint(logging.INFO, "NtfnsHandler stopped", logging.LogFormat{})
+				return
+			}
 
 		case block := <-h.queueBlock:
 			err := h.processConnectedBlock(block)
@@ -857,7 +862,9 @@ func (h *NtfnsHandler) asyncImport(walletId string) (finish bool, err error) {
 	}
 
 	verifPoint("import.begin")
-	h.suspend(false, "[asyncImport] run", logging.LogFormat{"walletId": walletId})
+	if !h.suspend(false, "[asyncImport] run", logging.LogFormat{"walletId": walletId}) {
+		return false, ErrTaskAbort
+	}
 	defer func() {
 		h.resume(false, "[asyncImport] stop", logging.LogFormat{"walletId": walletId, "finish": finish})
 	}()
@@ -1008,7 +1015,9 @@ func (h *NtfnsHandler) asyncRemove(walletId string) error {
 		return nil
 	}
 
-	h.suspend(true, "[asyncRemove-1] deleting balance, address, staking/binding histories", logging.LogFormat{"walletId": walletId})
+	if !h.suspend(true, "[asyncRemove-1] deleting balance, address, staking/binding histories", logging.LogFormat{"walletId": walletId}) {
+		return ErrTaskAbort
+	}
 	err = mwdb.Update(h.walletMgr.db, func(wtx mwdb.DBTransaction) error {
 		err := h.walletMgr.utxoStore.RemoveUnspentByWalletId(wtx, walletId)
 		if err != nil {
@@ -1040,7 +1049,9 @@ func (h *NtfnsHandler) asyncRemove(walletId string) error {
 			return ErrTaskAbort
 		default:
 			verifPoint("remove.round")
-			h.suspend(true, "[asyncRemove-2] deleting credits, keystore", logging.LogFormat{"walletId": walletId})
+			if !h.suspend(true, "[asyncRemove-2] deleting credits, keystore", logging.LogFormat{"walletId": walletId}) {
+				return ErrTaskAbort
+			}
 			finish := false
 			var removedTx []*wire.Hash
 			err := mwdb.Update(h.walletMgr.db, func(wtx mwdb.DBTransaction) (err error) {
@@ -1243,18 +1254,28 @@ func (h *NtfnsHandler) OnTransactionReceived(tx *wire.MsgTx) error {
 	return nil
 }
 
-func (h *NtfnsHandler) suspend(log bool, msg string, fields logging.LogFormat) {
+// suspend parks the handler goroutine. It returns false when the handler is
+// shutting down (it may be gone already, nobody would receive the signal).
+func (h *NtfnsHandler) suspend(log bool, msg string, fields logging.LogFormat) bool {
 	verifPoint("suspend.before")
-	h.sigSuspend <- struct{}{}
+	select {
+	case h.sigSuspend <- struct{}{}:
+	case <-h.quit:
+		return false
+	}
 	verifPoint("suspend.after")
 	if log {
 		logging.VPrint(logging.INFO, msg, fields)
 	}
+	return true
 }
 
 func (h *NtfnsHandler) resume(log bool, msg string, fields logging.LogFormat) {
 	verifPoint("resume.before")
-	h.sigResume <- struct{}{}
+	select {
+	case h.sigResume <- struct{}{}:
+	case <-h.quit:
+	}
 	verifPoint("resume.after")
 	if log {
 		logging.VPrint(logging.INFO, msg, fields)
